@@ -13,13 +13,16 @@ sys.path.insert(0, VERIF)
 from vlib.canaries import CANARIES  # noqa: E402
 from vlib import registry  # noqa: E402
 
-want = set(sys.argv[1:])
+want = set(a for a in sys.argv[1:] if not a.startswith("--"))
+json_out = [a.split("=", 1)[1] for a in sys.argv[1:] if a.startswith("--json=")]
+results = []
 bad = 0
 for cid, pid, unit, file, old, new, expect in CANARIES:
     if want and pid not in want and cid not in want:
         continue
     if pid not in registry.PROPERTIES or unit not in [u.uid for u in registry.PROPERTIES[pid]["units"]]:
         print(f"canary {cid}: SKIP (unit {unit} not registered for {pid})")
+        results.append({"canary": cid, "unit": unit, "verdict": "skipped (unit not registered)"})
         continue
     d = tempfile.mkdtemp(prefix="blots-canary.")
     try:
@@ -28,6 +31,7 @@ for cid, pid, unit, file, old, new, expect in CANARIES:
         s = open(p).read()
         if s.count(old) != 1:
             print(f"canary {cid}: SKIP (anchor found {s.count(old)} times in {file})")
+            results.append({"canary": cid, "unit": unit, "verdict": "skipped (anchor lost)"})
             continue
         open(p, "w").write(s.replace(old, new))
         env = dict(os.environ, VERIF_REPO=d, VERIF_EVIDENCE_DIR=os.path.join(d, "evidence"), VERIF_REPLAY_DIR=os.path.join(d, "replays"))
@@ -37,11 +41,17 @@ for cid, pid, unit, file, old, new, expect in CANARIES:
         hit = [l for l in viol if expect in l]
         if r.returncode == 1 and hit:
             print(f"canary {cid}: CAUGHT by {unit} ({hit[0][:160]})")
+            results.append({"canary": cid, "unit": unit, "verdict": "caught", "obligation": hit[0][:200]})
         elif r.returncode == 1:
             print(f"canary {cid}: CAUGHT (other obligation) {viol[0][:200]}")
+            results.append({"canary": cid, "unit": unit, "verdict": "caught (other obligation)", "obligation": viol[0][:200]})
         else:
             bad += 1
             print(f"canary {cid}: MISSED rc={r.returncode} :: {r.stdout[-400:]} {r.stderr[-300:]}")
+            results.append({"canary": cid, "unit": unit, "verdict": f"MISSED rc={r.returncode}", "tail": r.stdout[-300:]})
     finally:
         shutil.rmtree(d, ignore_errors=True)
+if json_out:
+    import json
+    json.dump(results, open(json_out[0], "w"), indent=1)
 sys.exit(1 if bad else 0)
